@@ -105,6 +105,7 @@ def judge(case):
                     if on != off:
                         out.bad("parsed-off-changes-frames",
                                 f"{case['name']} validate={v} labelmsm={lm} q={q}: raw sequences differ")
+    _interleaved(case, source, results, out)
     out.states = len({e[1] if e[0] != "pair" else e[2] for _k, (_p, rec) in results.items()
                       for e in rec["events"]})
     out.nontrivial = not all_valid or any(i["kind"] == "skip" for i in its)
@@ -113,14 +114,65 @@ def judge(case):
     return out
 
 
+def _interleaved(case, source, results, out):
+    """
+    All 24 readers alive at the same time, each over its own copy of the stream, advanced
+    round-robin one read() at a time: every reader must deliver what it delivered alone.
+    """
+    from pyrtcm import RTCMReader  # pylint: disable=import-outside-toplevel
+    from mc.doubles import FaultStream  # pylint: disable=import-outside-toplevel
+
+    lib = H.lib_exceptions()
+    readers = {}
+    for v, p, lm, q in CFGS:
+        stream = FaultStream(source, None, faults=False)
+        readers[(v, p, lm, q)] = (RTCMReader(stream, validate=v, quitonerror=q, parsed=p, labelmsm=lm,
+                                             errorhandler=lambda e: None), stream, [], [False])
+    for _round in range(len(source) + 8):
+        live = 0
+        for key, (rdr, stream, got, done) in readers.items():
+            if done[0]:
+                continue
+            live += 1
+            try:
+                raw, msg = rdr.read()
+            except lib:
+                continue
+            except Exception as err:  # pylint: disable=broad-except
+                out.bad("reader-breaks", f"{case['name']} {key} (interleaved): {type(err).__name__}: {err}")
+                done[0] = True
+                continue
+            if raw is None and msg is None:
+                done[0] = True
+                continue
+            got.append((stream.pos - len(raw), stream.pos, raw, attrs(msg)))
+        out.transitions += live
+        if not live:
+            break
+    for key, (_rdr, _stream, got, _done) in readers.items():
+        alone = [(a, b, r, attrs(m)) for a, b, r, m in results[key][0]]
+        if got != alone:
+            v, p, lm, q = key
+            out.bad("readers-interfere",
+                    f"{case['name']}: reader(validate={v}, parsed={p}, labelmsm={lm}, quitonerror={q}) "
+                    f"delivers {[(a, b) for a, b, _, _ in got]} when 23 differently configured readers "
+                    f"are alive, but {[(a, b) for a, b, _, _ in alone]} alone"
+                    + ("" if [(a, b) for a, b, _, _ in got] != [(a, b) for a, b, _, _ in alone]
+                       else " (same frames, different decoded attributes)"))
+            break
+
+
 def alphabet(tier):
     f = items.frames()
-    good = [f["F2"], f["F19"], f["Fmsm"]]
+    ptext, _o, _n = R.build("1029", {"DF139": 250, "DF138": 100}, "fp")  # 259-byte known type
+    good = [f["F2"], f["F19"], f["Fmsm"], items.frame_item("Ftext259", ptext),
+            items.frame_item("F300", items.unknown_payload(300, 4006)),
+            items.frame_item("F1023", items.unknown_payload(1023, 4007))]
     out = []
     for g in good:
         out.append({"name": g["name"], "data": g["data"], "kind": "frame", "payload": g["payload"]})
-    bits = range(24)
     for g in good:
+        bits = range(24) if len(g["data"]) < 64 else (0, 23)
         for b in bits:
             d = bytearray(g["data"])
             d[len(d) - 3 + b // 8] ^= 0x80 >> (b % 8)
